@@ -181,6 +181,7 @@ class SimFS:
         self.files = {}        # path -> bytearray
         self.special = {}      # path -> list of writes (FIFO sink)
         self.log = []          # (stamp, op, path, extra, tid)
+        self.entered = {}      # (op, destination) -> True once a thread is inside it
         self.reads = []
         self.invariants = []   # callables(fs, op, path) evaluated after each mutation
         self.dests = {}        # dest path -> transfer idx
@@ -243,6 +244,8 @@ class SimFS:
         self.mutated('remove', path)
 
     def rename(self, src, dst):
+        # (state triggers: "a thread is inside rename of this destination")
+        self.entered[('rename', self.dest_of(dst))] = True
         self.sim.point('fs.rename')
         f = self.faults.hit('fs', op='rename', dest=self.dest_of(dst))
         if f is not None:
